@@ -47,6 +47,7 @@ fn main() {
         "C14" => dot::c14(&mut out, tier, &mut rng, &mut st),
         "C19" => sets::c19(&mut out, tier, &mut rng, &mut st),
         "C15" => gen::c15(&mut out, tier, &mut rng, &mut st),
+        "C16" => gen::c16(&mut out, tier, &mut rng, &mut st),
         "C02" => bddprops::c02(&mut out, tier, &mut rng, &mut st),
         "C03" => bddprops::c03(&mut out, tier, &mut rng, &mut st),
         "C04" => bddprops::c04(&mut out, tier, &mut rng, &mut st),
